@@ -7,6 +7,7 @@ import (
 	"unsafe"
 
 	"github.com/philpearl/plenc/plenccore"
+	"github.com/philpearl/plenc/verifhook"
 )
 
 // MapCodec is a codec for maps. We treat it as a slice of structs with the key
@@ -219,6 +220,7 @@ func (c *MapCodec) readMapEntry(mp, k unsafe.Pointer, data []byte) (int, error) 
 
 	// Assign/find a place in the map for this key. Val is a pointer to where
 	// the value should be. We're going to unmarshal into this directly
+	verifhook.At("map.key", c)
 	val := mapassign(unpackEFace(c.rtype).data, mp, k)
 
 	if offset < len(data) || index == 2 {
